@@ -99,7 +99,8 @@ def gen_fit(rng):
         old = float(est.iCVI.criterion_value)
         r = orig(x, w, c_, params, cache)
         new = (est.iCVI.switch_label(x, est.labels_[est.index], c_) if est.offline else est.iCVI.add_sample(x, c_))["criterion_value"]
-        calls.append((int(est.index), int(c_), bool(r), float(new), old))
+        same = bool(est.offline and int(est.labels_[est.index]) == int(c_))
+        calls.append((int(est.index), int(c_), bool(r), float(new), old, same))
         return r
     est.iCVI_match = wrapped
     ok, err = True, None
@@ -110,8 +111,8 @@ def gen_fit(rng):
         ok, err = False, type(e).__name__ + ": " + str(e)[:80]
     summ = {"estimator": "iCVIFuzzyART", "rho": str(rho), "offline": offline, "mode": mode, "eps": str(eps), "X": [[str(v) for v in r] for r in rows]}
     fails = []
-    # exact float equality arises from the same-label shortcut / the k < 2 convention and is exact in the model too
-    robust = all(new == old or abs(new - old) > 1e-9 * (1 + abs(old)) for _, _, _, new, old in calls)
+    # the same-label shortcut and the k < 2 convention (both 0) are exact in the model too; other near-ties are not judged
+    robust = all(same or (new == 0.0 and old == 0.0) or abs(new - old) > 1e-9 * (1 + abs(old)) for _, _, _, new, old, same in calls)
     if ok:
         labels = [int(v) for v in est.labels_]
         want = batch_ch(X, labels)
@@ -125,16 +126,19 @@ def gen_fit(rng):
         for i, l in enumerate(labels):
             created_before = len(set(labels[:i]))
             if l < created_before and created_before >= 1 and i > 0:
-                if not any(ci == i and cc == l and r and new > old for ci, cc, r, new, old in calls):
+                if not any(ci == i and cc == l and r and new > old for ci, cc, r, new, old, _ in calls):
                     # category existed before sample i and absorbed it without a recorded strict improvement
                     first_of_l = labels.index(l)
                     if first_of_l < i:
                         fails.append({"signature": "iCVIFuzzyART/gate", "text": f"sample {i} joined category {l} without a strict improvement of the index", "replay": summ})
                         break
-        for ci, cc, r, new, old in calls:
+        for ci, cc, r, new, old, _ in calls:
             if r != (new > old):
                 fails.append({"signature": "iCVIFuzzyART/gate", "text": "iCVI_match result is not (new criterion > old criterion)", "replay": summ})
                 break
+    # a validity value beyond any index attainable on this grid can only come from dividing by a rounding residue of WGSS
+    if any(abs(c[3]) > 1e9 for c in calls) or (ok and abs(float(est.iCVI.criterion_value)) > 1e9):
+        summ["wgss_residue"] = True
     W = [[B.fr(v) for v in np.asarray(w, dtype=float)] for w in est.W] if ok else []
     s = (f"(mkIFCase {q(alpha)} {q(beta)} {q(rho)} {coq_bool(offline)} {qmat(rows)} {B.MODE_COQ[mode]} {q(eps)} {coq_bool(ok)} "
          f"{qmat(W)} {natlist([int(v) for v in est.labels_] if ok else [])} {q(float(est.iCVI.criterion_value) if ok else 0)})")
@@ -222,6 +226,8 @@ def main():
     def site(summ, code):
         # the implementation's value differs exactly where the exact within-group dispersion is 0
         if code is not None and code % 10 == 4:
+            return "iCVI_CH/wgss-rounding-residue"
+        if isinstance(summ, dict) and summ.get("wgss_residue"):
             return "iCVI_CH/wgss-rounding-residue"
         return None
     flow.decide(v, "C15", gate_ok, ob, list(zip(scodes, ssumm)) + list(zip(fcodes, fsumm)), fails, None, site)
